@@ -76,6 +76,23 @@ theorem c06_concurrent {A : Arith} {q D : Rat} (hA : ArithOK A q D) {p : Params}
   have h3 : (admittedWithin t0 t1 c.log : Rat) ≤ (countIn t0 t1 (trace A p s0 nows) : Rat) := by exact_mod_cast h1
   exact Rat.le_trans h3 h2
 
+/-- The same from any configuration in which nobody holds the mutex — in particular right after a `Resize`
+    (which holds the mutex for its whole duration, so it is one atomic step between critical sections): callers
+    that invoked `TryAcquire` earlier may already be waiting. With `c06_resize_changed` (the new limiter is
+    `State.init`, which satisfies the invariant) this covers every reconfiguration-free stretch of a concurrent
+    run; `c06_resize_same` says an unchanged `Resize` does not end a stretch. -/
+theorem c06_concurrent_from {A : Arith} {q D : Rat} (hA : ArithOK A q D) {p : Params} (hV : Valid p q D)
+    (c0 : Sys) (hI0 : Inv A p c0.lim) (hc : c0.crit = none) (hl : c0.log = []) (h0 : c0.lim.last ≤ c0.clock)
+    (hp : ∀ x ∈ c0.pending, x.2 ≤ c0.clock)
+    (steps : List Step) (c : Sys) (hex : Sys.exec A p c0 steps = some c)
+    (t0 t1 : Rat) (h01 : t0 ≤ t1) :
+    (admittedWithin t0 t1 c.log : Rat) ≤ (p.burst : Rat) + (t1 - t0) * K p + q * K p := by
+  obtain ⟨nows, hI⟩ := exec_inv steps (sysInv_start A p c0 hc hl h0 hp) hex
+  have h1 := admittedWithin_le_trace hI t0 t1
+  have h2 := c06_upper_window hA hV c0.lim hI0 nows hI.sorted t0 t1 h01
+  have h3 : (admittedWithin t0 t1 c.log : Rat) ≤ (countIn t0 t1 (trace A p c0.lim nows) : Rat) := by exact_mod_cast h1
+  exact Rat.le_trans h3 h2
+
 /-- the same as the integer bound the harness applies to the real code: `⌈burst + qps·T⌉` -/
 theorem c06_concurrent_judge {A : Arith} {q D : Rat} (hA : ArithOK A q D) (hq : q ≤ 1) {p : Params}
     (hV : Valid p q D) (s0 : State) (hI0 : Inv A p s0) (clock0 : Rat) (h0 : s0.last ≤ clock0)
@@ -165,6 +182,25 @@ theorem f32_exact (n : Nat) (h : n ≤ 16777216) : f32 n = n := by
 theorem c06_params_valid (qps burst : Nat) (hq : 1 ≤ qps) (hb : burst < 4294967296) :
     Valid (paramsOf qps burst) 1 (maxDuration : Rat) :=
   params_valid qps burst hq hb
+
+/-- **The statement, in the schema's own numbers** (`1 ≤ qps ≤ 2^24` so that `float32(qps)` is exact,
+    `burst < 2^32`), for the library's arithmetic, a new bucket and any call list with non-decreasing clock
+    readings: in every window of `T = t1 − t0` nanoseconds at most `burst + qps·(T + 1)/10^9` are admitted. -/
+theorem c06_schema_upper (qps burst : Nat) (hq : 1 ≤ qps) (hq' : qps ≤ 16777216) (hb : burst < 4294967296)
+    (nows : List Rat) (hs : sortedFrom 0 nows) (t0 t1 : Rat) (h01 : t0 ≤ t1) :
+    (countIn t0 t1 (trace Arith.ns (paramsOf qps burst) State.init nows) : Rat)
+      ≤ (burst : Rat) + (qps : Rat) * ((t1 - t0 + 1) / 1000000000) := by
+  have h := c06_upper_ns (c06_params_valid qps burst hq hb) nows hs t0 t1 h01
+  have hK : K (paramsOf qps burst) = (qps : Rat) / 1000000000 := by
+    unfold K paramsOf; simp only [f32_exact qps hq']
+  have hB : (((paramsOf qps burst).burst : Int) : Rat) = (burst : Rat) := by
+    show ((((burst : Nat) : Int)) : Rat) = (burst : Rat)
+    exact Rat.intCast_natCast burst
+  rw [hK, hB] at h
+  have : (t1 - t0 + 1) * ((qps : Rat) / 1000000000) = (qps : Rat) * ((t1 - t0 + 1) / 1000000000) := by
+    rw [Rat.div_def, Rat.div_def]; grind
+  rw [this] at h
+  exact h
 
 /-! ## whole histories of a `resizeableTokenBucket`: the judge the harness applies to the real code -/
 
